@@ -235,6 +235,7 @@ fn cmd_repl(args: &[&str], out: &mut Vec<String>) {
         }
         let r = vm::interpret(&mut vm, unhex_str(a), None);
         emit_result(out, &r);
+        emit_carried(out, &vm);
     }
     emit_stats(out, &o);
 }
@@ -377,6 +378,44 @@ fn cmd_compile(args: &[&str], out: &mut Vec<String>) {
     }
 }
 
+// trace <opts> <limit> <src> : run with the per-instruction trace of hook H4
+// T fiber function pc opcode stack_len slot_base frames handling_exception return_pending fiber_ptr_ok has_caller | h:catch,finally,size,frames;... | u:slot,slot,...
+fn cmd_trace(args: &[&str], out: &mut Vec<String>) {
+    use yarel::vm::verif_trace as vt;
+    let o = parse_opts(args[0]);
+    let limit: usize = args[1].parse().unwrap_or(100000);
+    let src = unhex_str(args[2]);
+    gcv::set_deref_check(Some(deref_check));
+    let mut vm = new_vm();
+    setup(&o);
+    vt::set_tracing(true, limit);
+    let r = vm::interpret(&mut vm, src, None);
+    vt::set_tracing(false, 0);
+    let mut ids = Ids::new();
+    for s in vt::take_trace() {
+        let hs: Vec<String> = s.handlers.iter().map(|h| format!("{},{},{},{}", h.0, h.1, h.2, h.3)).collect();
+        let us: Vec<String> = s.open_upvalues.iter().map(|u| u.to_string()).collect();
+        out.push(format!(
+            "T {} {} {} {} {} {} {} {} {} {} {} h:{} u:{}",
+            ids.id(s.fiber), ids.id(s.function), s.pc, s.opcode, s.stack_len, s.slot_base, s.frames,
+            s.handling_exception as u8, s.return_pending as u8, s.fiber_ptr_ok as u8, s.has_caller as u8,
+            hs.join(";"), us.join(",")
+        ));
+    }
+    emit_result(out, &r);
+    emit_carried(out, &vm);
+}
+
+fn emit_carried(out: &mut Vec<String>, vm: &Vm) {
+    let c = yarel::vm::verif_trace::carried(vm);
+    out.push(format!(
+        "CS he={} fiber={} frames={} stack={} handlers={} retpend={} errip={} classdef={} modules={} chunks={} core_chunks={} range_cache={}",
+        c.handling_exception as u8, c.fiber_present as u8, c.fiber_frames, c.fiber_stack, c.fiber_handlers,
+        c.fiber_return_pending as u8, c.fiber_error_ip as u8, c.working_class_def as u8, c.modules, c.chunks,
+        c.core_chunks, c.range_cache
+    ));
+}
+
 fn cmd_config(out: &mut Vec<String>) {
     out.push(format!(
         "CFG debug_assertions={} debug_stress_gc={} safe_active_fiber={} safe_class_lookup={} safe_stack={} safe_vm_opcodes={}",
@@ -404,6 +443,7 @@ fn dispatch(line: &str) -> Vec<String> {
         "intern" => cmd_intern(&parts[1..], &mut out),
         "vmintern" => cmd_vmintern(&parts[1..], &mut out),
         "compile" => cmd_compile(&parts[1..], &mut out),
+        "trace" => cmd_trace(&parts[1..], &mut out),
         "config" => cmd_config(&mut out),
         other => {
             if !dispatch_extra(other, &parts[1..], &mut out) {
